@@ -307,3 +307,6 @@ def gen_ops(rng, tier, ctx=None):
 
 def nontrivial(line):
     return line
+
+# source pins: the C files the Lean model cites (see tools/pins.py)
+PINS = [('mpn/generic/divrem_hensel_rsh_qr_1.c', None), ('mpn/generic/fib2_ui.c', None), ('mpz/2fac_ui.c', None), ('mpz/bin_ui.c', None), ('mpz/fac_ui.c', None), ('mpz/fib2_ui.c', None), ('mpz/fib_ui.c', None), ('mpz/lucnum2_ui.c', None), ('mpz/lucnum_ui.c', None), ('mpz/mfac_uiui.c', None), ('mpz/miller_rabin.c', None), ('mpz/oddfac_1.c', None), ('mpz/primorial_ui.c', None), ('mpz/remove.c', None)]
